@@ -26,6 +26,8 @@ def run(tier, seed):
              (A.set_address_var('C10'),), (A.system_set_address('C10'),), (A.set_xy_name('C10'),),
              (A.link_external_model('C10'),), (A.link_external_group('C10'), None, A.replay_link_external_group), (A.set_arrays_inplace('C10'),), (A.set_hi_name('C10'), None, A.replay_hi_names), (__import__('contracts.fn_registry', fromlist=['x']).find_or_add('C10'), None, __import__('contracts.fn_registry', fromlist=['x']).replay_find_or_add), (A.extparam_link_model('C10'),), (A.extparam_link_group('C10'), None, A.replay_extparam_group), (A.extservice_link('C10'),),
              (A.model_get('C10'),)]
+    from contracts import fn_registry as GR
+    items += [(GR.one_idx2uid('C10'),), (GR.model_idx2uid('C10'), None, GR.replay_model_idx2uid)]
     run_contracts(pack, items)
     A.bijection_lemmas(pack, 'C10')
     from contracts.packutil import native_guard
@@ -63,4 +65,15 @@ def run(tier, seed):
                              'kind': 'bounded native: ieee14.raw plus added machines and governors', 'counted_as_proved': False})
         if r.get('confirmed'):
             pack.violation(gname, {'bounded': True, 'inputs': r.get('inputs'), 'observed': r.get('observed'), 'native_cmd': r.get('native_cmd')})
+    # "for every order of adding devices": the idx -> position lookup every link goes through, in scalar, list and array form
+    from contracts import bounded_registry as BR
+    rname = 'C10/andes/core/model/model.py:Model.idx2uid/bounded:registries-of-integers-added-in-any-order:every-query-form-returns-the-positions'
+    r = native_guard(pack, rname, lambda: BR.run(getattr(pack, 'seed', 0) or 0))
+    if r is not None:
+        n3, bad3 = r
+        pack.bounded.append({'function': 'System.add / Model.idx2uid / GroupBase.idx2uid (sequences of additions)', 'calls': n3,
+                             'kind': 'bounded native: all orders of 4 consecutive integers and 8 longer orders (gaps, zero-based, descending), '
+                                     'queries as scalar, list, array, nested list, with None', 'counted_as_proved': False})
+        if bad3:
+            pack.violation(rname, {'bounded': True, 'inputs': bad3, 'native_cmd': 'contracts/bounded_registry.py'})
     return pack.finish()
